@@ -190,13 +190,13 @@ func allProps() []Prop {
 	}
 	raceJobs := cat(
 		caseJobs("VerifH_race", map[string][]int{"pair": {0, 1, 2, 3, 4, 5, 6, 8}}, []string{"pair"}),
-		[]Job{{Dir: gcp, Harness: gcp, Entry: "VerifH_race", Flags: []string{"pair=7", "rr"}}, {Dir: gcp, Harness: gcp, Entry: "VerifH_race", Flags: []string{"pair=9", "rr"}}},
+		[]Job{{Dir: gcp, Harness: gcp, Entry: "VerifH_race", Flags: []string{"pair=7", "rr"}}, {Dir: gcp, Harness: gcp, Entry: "VerifH_race", Flags: []string{"pair=9", "rr"}}, {Dir: gcp, Harness: gcp, Entry: "VerifH_race", Flags: []string{"pair=10", "rr"}}},
 		caseJobs("VerifH_racegme", map[string][]int{"pair": {0, 1, 2, 3, 4, 5, 6, 7}}, []string{"pair"}),
 		[]Job{{Dir: me, Harness: "multiendpoint", Entry: "VerifH_raceme", TmoMs: 60000}})
 	for i := range raceJobs {
 		raceJobs[i].NoReplay = true
 	}
-	raceBounds := map[string]string{"pairs": "balancer: Pick||state report, Pick||Pick, Done||state report, Done||Done, Done||Pick, Pick||resolver update from one Inv_gb state; GCPMultiEndpoint: RPC routing||UpdateMultiEndpoints, RPC||monitor notify, notify||Update, GCPConfig||Update, RPC||RPC; multiEndpoint: any two of Current/SetEndpointAvailability/SetEndpoints/timer closure from one Inv_me state", "happens-before": "mutexes, atomics and object freshness only; other edges are not modelled (can only add candidates)", "confirmation": "a candidate is reported only if `go test -race` on the two operations in two goroutines from the model's pre-state reports a race between the same two functions (package under test built without inlining; a report stack whose innermost frame is sync/atomic stands for a one-line atomic accessor, which the detector leaves out of the stack)"}
+	raceBounds := map[string]string{"pairs": "balancer: Pick||state report, Pick||Pick, Done||state report, Done||Done, Done||Pick, Pick||resolver update, two round-robin BIND picks from one Inv_gb state; GCPMultiEndpoint: RPC routing||UpdateMultiEndpoints, RPC||monitor notify, notify||Update, GCPConfig||Update, RPC||RPC; multiEndpoint: any two of Current/SetEndpointAvailability/SetEndpoints/timer closure from one Inv_me state", "happens-before": "mutexes, atomics and object freshness only; other edges are not modelled (can only add candidates)", "confirmation": "a candidate is reported only if `go test -race` on the two operations in two goroutines from the model's pre-state reports a race between the same two functions (package under test built without inlining; a report stack whose innermost frame is sync/atomic stands for a one-line atomic accessor, which the detector leaves out of the stack)"}
 	return []Prop{
 		{ID: "C10", Jobs: raceJobs, Races: true, Level: "other", Assume: append(append([]string{}, commonAssume...), "accesses inside stubbed calls (gRPC runtime, logging) are invisible", "threading contract: balancer callbacks serialized; picks and completion callbacks on any goroutine"), Bounds: raceBounds},
 		{ID: "C18", Jobs: pbJobs, Panics: true, Assume: append(append([]string{}, commonAssume...), "float64 arithmetic is IEEE-754 binary64 round-to-nearest-even in the solver (QF_FPBV); float64->int64 conversion out of range is treated as unspecified", "NOT covered: the regexp engine itself (only the literals are checked), SHA-256 and CRC arithmetic, ratios max/base > 25, base >= 2^53 ns"), Bounds: pbBounds},
